@@ -171,7 +171,7 @@ GHOST_FENCE = (
 contract(Contract(
     target=M + ":preprocess_tag_block_spacing",
     props=["C06", "C04", "C02"],
-    assumes=['fence regex ^ {0,3}(`{3,}(?=[^`]*$)|~{3,}): group 1 has at least 3 characters; what it matches is uninterpreted here (the spec fence state uses the same match as an oracle) and compared with CommonMark's rule by the function-level sweep fence_opener_sweep', '_is_tag_only_line / line_is_block_content are uninterpreted predicates (bounded layer only)'],
+    assumes=['fence regex ^ {0,3}(`{3,}(?=[^`]*$)|~{3,}): group 1 has at least 3 characters; what it matches is uninterpreted here (the spec fence state uses the same match as an oracle) and compared with the CommonMark rule by the function-level sweep fence_opener_sweep', '_is_tag_only_line / line_is_block_content are uninterpreted predicates (bounded layer only)'],
     shards=10,
     params={"text": "str"},
     types={"lines": "list[str]", "result_lines": "list[str]", "line": "str", "prev_line": "str", "open_fence": "opt[str]",
